@@ -140,8 +140,8 @@ Proof. eexists. split; [unfold frame_bytes_ok; cbn [fst snd]; vm_compute; reflex
 (* ===== protocol matchers and automatic protocol detection ===== *)
 (* stream/xprotocol/conn.go Dispatch has the shape of Lib/Seg.v drain: after handleError answered a request the loop
    goes on in a new stream context; it returns only when the connection was closed *)
-Theorem c07_dispatch_shape_ok : dispatch_continues_after_reply = true.
-Proof. exact eq_refl. Qed.
+Theorem c07_dispatch_shape_ok : dispatch_continues_after_reply = true /\ dispatch_progress_guard = true.
+Proof. exact (conj eq_refl eq_refl). Qed.
 
 (* protocol/api.go SelectStreamFactoryProtocol has the shape of Model/Matchers.v `select` (read from the source):
    the first accepting factory wins, otherwise EAGAIN iff some matcher said EAGAIN, otherwise FAILED *)
